@@ -51,6 +51,8 @@ class Ctx:
         self.allow = budget         # what is left for the block being generated
         self.force_n = None         # calibration only: every loop count becomes this
         self.decls = []             # records / enums (must precede all functions)
+        self.globals = []           # top-level let/var (roots in the global vector)
+        self.count_calls = rng.random() < 0.5   # idi() bumps a global counter
         self.funcs = []
         self.have = set()
         self.k = 0
@@ -87,7 +89,11 @@ class Ctx:
             "func mix(a : int, x : int) -> int { (a * 31 + x % 10007 + 10007) % 65521 }")
 
     def h_idi(self):
-        self.funcs.append("func idi(x : int) -> int { x }")
+        if self.count_calls:
+            self.globals.append("var gcalls = 0;")
+            self.funcs.append("func idi(x : int) -> int { gcalls = gcalls + 1; x }")
+        else:
+            self.funcs.append("func idi(x : int) -> int { x }")
 
     def h_mkp(self):
         self.need("P")
@@ -191,7 +197,7 @@ def f1_adders(c):
     b.use.append("acc = mix(acc, fb%d(%d) + lev%d(%d)(%d)(%d) * 3 + fa%d(%d)(%d))"
                  % (K, v(), K, v(), v(), v(), K, v(), v()))
     b.use.append('prints("c%d " + fb%d(%d) + "\\n")' % (K, K, v()))
-    n = c.n(3, 12)
+    n = c.n(3, 12, 85)
     b.use.append("var i%d = 0" % K)
     b.use.append(T("""for (i${K} = 0; i${K} < $n; i${K} = i${K} + 1)
     {
@@ -221,7 +227,7 @@ def f1_counters(c):
                    % (K, K, r.randint(1, 50), K, r.randint(0, 99), r.randint(1, 9), r.randint(0, 9)))
     b.setup.append("var cs%d = [ %s ] : () -> int" % (K, items))
     b.setup.append("var i%d = 0" % K)
-    n = c.n(5, 30)
+    n = c.n(5, 30, 35)
     repl = ""
     if r.random() < 0.6:
         # replace a closure in the array: the old one (and its env) becomes garbage
@@ -266,7 +272,7 @@ def f1_state(c):
     b.setup.append("let ac%d = mkacc%d(%d)" % (K, K, r.randint(0, 20)))
     b.setup.append("let pr%d = mkpair%d(%d)" % (K, K, r.randint(1, 30)))
     b.setup.append("var i%d = 0" % K)
-    n = c.n(5, 25)
+    n = c.n(5, 25, 45)
     parts = ["ac%d(i%d)" % (K, K), "pr%d.inc(i%d %% 5)" % (K, K), "pr%d.get()" % K]
     r.shuffle(parts)
     b.use.append(T("""for (i${K} = 0; i${K} < $n; i${K} = i${K} + 1)
@@ -388,12 +394,12 @@ def f2_list(c):
     };
     o
 }""", K=K))
-    ln = r.randint(4, 12)
+    ln = r.randint(3, 9)
     b.setup.append("var ls%d = N%d" % (K, K))
     b.setup.append("ls%d = build%d(%d, %d)" % (K, K, ln, r.randint(1, 9)))
     b.setup.append("var i%d = 0" % K)
     b.use.append("acc = mix(acc, sum%d(ls%d) + sum%d(rev%d(ls%d)))" % (K, K, K, K, K))
-    n = c.n(3, 12)
+    n = c.n(3, 12, 18 * ln + 20)
     kind = r.randrange(3)
     if kind == 0:
         body = "ls%d = rev%d(ls%d);\n        acc = mix(acc, sum%d(ls%d))" % (K, K, K, K, K)
@@ -435,7 +441,7 @@ def f2_reclist(c):
     b.setup.append("let rl%d = rb%d(%d, %d)" % (K, K, d, r.randint(1, 9)))
     b.setup.append("var i%d = 0" % K)
     b.use.append("acc = mix(acc, rs%d(rl%d) + rlen%d(rl%d, 0))" % (K, K, K, K))
-    n = c.n(2, 10)
+    n = c.n(2, 10, 8 * d + 10)
     b.use.append(T("""for (i${K} = 0; i${K} < $n; i${K} = i${K} + 1)
     {
         acc = mix(acc, rs${K}(rb${K}(i${K} % $d + 1, i${K})) + rlen${K}(rl${K}, i${K}))
@@ -490,7 +496,7 @@ def f2_ring(c):
     b.setup.append("let rg%d = ring%d(%d, %d)" % (K, K, ln, r.randint(1, 9)))
     b.setup.append("var i%d = 0" % K)
     b.use.append("acc = mix(acc, walk%d(rg%d, %d))" % (K, K, r.randint(3, 20)))
-    n = c.n(3, 12)
+    n = c.n(3, 12, 110)
     # garbage rings (cyclic garbage) while the live ring is held by main
     b.use.append(T("""for (i${K} = 0; i${K} < $n; i${K} = i${K} + 1)
     {
@@ -602,7 +608,7 @@ def f2_nested(c):
     b.setup.append("let ob%d = Out%d(%d, mkin%d(%d)%s, nil)"
                    % (K, K, r.randint(1, 9), K, r.randint(1, 9), es))
     b.setup.append("var i%d = 0" % K)
-    n = c.n(5, 30)
+    n = c.n(5, 30, 32)
     b.use.append(T("""for (i${K} = 0; i${K} < $n; i${K} = i${K} + 1)
     {
         ob${K}.old = ob${K}.cur;
@@ -611,6 +617,116 @@ def f2_nested(c):
     }""", K=K, n=n))
     b.use.append('prints("o%d " + ob%d.cur.s + " " + inval%d(ob%d.old) + "\\n")' % (K, K, K, K))
     b.late.append("acc = mix(acc, inval%d(ob%d.cur) + ob%d.e0)" % (K, K, K))
+    return b
+
+
+def f2_global(c):
+    """a list, a string and a counter held in global variables (roots in the global vector),
+    updated from functions several frames deep"""
+    r = c.rng
+    K = c.uid()
+    c.need("mix", "idi", "trunc", "mkp")
+    b = Block(2, 4)
+    cap = r.randint(3, 8)
+    c.decls.append("record GN%d { v : int; p : P; next : GN%d; }" % (K, K))
+    c.globals.append("var ghead%d = GN%d;" % (K, K))
+    c.globals.append('var gname%d = "";' % K)
+    c.globals.append("var glen%d = 0;" % K)
+    c.globals.append("let gkeep%d = P(%d, %d);" % (K, r.randint(1, 99), r.randint(1, 99)))
+    c.funcs.append(T("""func gpush${K}(v : int) -> int
+{
+    var n = GN${K}(v + 0, mkp(v, glen${K}), nil);
+    if (glen${K} >= $cap)
+    {
+        ghead${K} = nil;
+        glen${K} = 0
+    }
+    else
+    {
+        n.next = ghead${K};
+        0
+    };
+    ghead${K} = n;
+    glen${K} = glen${K} + 1;
+    gname${K} = trunc(gname${K} + v % 10, $scap);
+    idi(v) + gkeep${K}.x
+}""", K=K, cap=cap, scap=r.randint(5, 12)))
+    c.funcs.append(T("""func gtot${K}() -> int
+{
+    var c = GN${K};
+    var s = 0;
+    var k = 0;
+    c = ghead${K};
+    while (c != nil && k < 32)
+    {
+        s = (s * 3 + c.v + c.p.y) % 10007;
+        c = c.next;
+        k = k + 1
+    };
+    s + length(gname${K}) + gkeep${K}.y
+}""", K=K))
+    c.funcs.append(T("""func gwork${K}(i : int) -> int
+{
+    let t = mkp(i, gpush${K}(i * $m % 50));
+    t.x + t.y + gtot${K}()
+}""", K=K, m=r.randint(1, 9)))
+    b.setup.append("gpush%d(%d)" % (K, r.randint(1, 9)))
+    b.setup.append("var i%d = 0" % K)
+    n = c.n(4, 20, 75)
+    b.use.append(T("""for (i${K} = 0; i${K} < $n; i${K} = i${K} + 1)
+    {
+        acc = mix(acc, gwork${K}(i${K}))
+    }""", K=K, n=n))
+    b.use.append('prints("G%d " + gname%d + " " + gtot%d() + "\\n")' % (K, K, K))
+    b.late.append("acc = mix(acc, gtot%d() + glen%d)" % (K, K))
+    return b
+
+
+def f2_enum(c):
+    """enum values with record payloads, kept in an array and taken apart by match / if let"""
+    r = c.rng
+    K = c.uid()
+    c.need("mix", "idi", "mkp")
+    b = Block(2, 3)
+    c.decls.append("enum Sh%d { Circle { r : int; c : P; }, Rect { w : int; h : int; }, Tag { s : string; }, Empty }" % K)
+    arms = ["Sh%d::Circle(r, c) -> (3 * idi(r) * r + c.x) %% 1009;" % K,
+            "Sh%d::Rect(w, h) -> idi(w) * h %% 1009;" % K,
+            "Sh%d::Tag(t) -> length(t) + idi(%d);" % (K, r.randint(1, 9)),
+            "Sh%d::Empty -> %d;" % (K, r.randint(0, 9))]
+    r.shuffle(arms)
+    c.funcs.append(T("""func area${K}(s : Sh${K}) -> int
+{
+    match s
+    {
+        $arms
+    }
+}""", K=K, arms="\n        ".join(arms)))
+    order = [0, 1, 2, 3]
+    r.shuffle(order)
+    mk = ["Sh%d::Circle(i %% 30, mkp(i, 1))" % K, "Sh%d::Rect(i %% 20, i %% 7 + 1)" % K,
+          'Sh%d::Tag("t" + i)' % K, "Sh%d::Empty" % K]
+    c.funcs.append(T("""func mks${K}(i : int) -> Sh${K}
+{
+    if (i % 4 == 0) { $a } else if (i % 4 == 1) { $b } else if (i % 4 == 2) { $c } else { $d }
+}""", K=K, a=mk[order[0]], b=mk[order[1]], c=mk[order[2]], d=mk[order[3]]))
+    c.funcs.append(T("""func rad${K}(s : Sh${K}) -> int
+{
+    if let (Sh${K}::Circle(r, c) = s) { idi(r) + c.y } else { 0 - 1 }
+}""", K=K))
+    ln = r.randint(2, 6)
+    b.setup.append("var shs%d = {[ %d ]} : Sh%d" % (K, ln, K))
+    b.setup.append("var i%d = 0" % K)
+    b.setup.append("for (i%d = 0; i%d < %d; i%d = i%d + 1) { shs%d[i%d] = mks%d(i%d + %d) }"
+                   % (K, K, ln, K, K, K, K, K, K, r.randint(0, 3)))
+    n = c.n(4, 24, 30)
+    b.use.append(T("""for (i${K} = 0; i${K} < $n; i${K} = i${K} + 1)
+    {
+        shs${K}[i${K} % $ln] = mks${K}(i${K} * $m + area${K}(shs${K}[(i${K} + 1) % $ln]));
+        acc = mix(acc, area${K}(shs${K}[i${K} % $ln]) + rad${K}(shs${K}[0]) + area${K}(mks${K}(i${K})))
+    }""", K=K, n=n, ln=ln, m=r.randint(1, 5)))
+    b.use.append('prints("E%d " + area%d(shs%d[%d]) + " " + rad%d(mks%d(%d)) + "\\n")'
+                 % (K, K, K, ln - 1, K, K, r.randint(0, 12)))
+    b.late.append("acc = mix(acc, area%d(shs%d[0]) + rad%d(shs%d[%d]))" % (K, K, K, K, ln - 1))
     return b
 
 
@@ -646,7 +762,7 @@ def f3_recarr(c):
     b.setup.append("var ar%d = {[ %d ]} : P" % (K, ln))
     b.setup.append("fill%d(ar%d, %d)" % (K, K, r.randint(1, 9)))
     b.setup.append("var i%d = 0" % K)
-    n = c.n(5, 30)
+    n = c.n(5, 30, 5 * ln + 12)
     st = r.choice([1, 2, 3, 5, 7])
     b.use.append(T("""for (i${K} = 0; i${K} < $n; i${K} = i${K} + 1)
     {
@@ -660,6 +776,11 @@ def f3_recarr(c):
     [ mkp(e.x * 2, e.y + 1) | e in a; e.x % 2 == $par ] : P
 }""", K=K, par=r.randint(0, 1)))
         b.use.append("acc = mix(acc, asum%d(dbl%d(ar%d)) + asum%d(ar%d))" % (K, K, K, K, K))
+    if ln >= 3 and r.random() < 0.5:
+        lo = r.randint(0, ln - 3)
+        hi = r.randint(lo + 1, ln - 1)
+        b.use.append("let sl%d = ar%d[%d .. %d]" % (K, K, lo, hi))
+        b.late.append("acc = mix(acc, sl%d[0].x + sl%d[%d].y)" % (K, K, hi - lo))
     b.use.append('prints("a%d " + asum%d(ar%d) + "\\n")' % (K, K, K))
     b.late.append("acc = mix(acc, asum%d(ar%d) + ar%d[%d].y)" % (K, K, K, r.randrange(ln)))
     return b
@@ -694,7 +815,7 @@ def f3_rows(c):
     rows = ", ".join("row%d(%d, %d)" % (K, r.randint(1, 5), r.randint(1, 9)) for _ in range(ln))
     b.setup.append("var rows%d = [ %s ] : [_] : int" % (K, rows))
     b.setup.append("var i%d = 0" % K)
-    n = c.n(4, 20)
+    n = c.n(4, 20, 25)
     b.use.append(T("""for (i${K} = 0; i${K} < $n; i${K} = i${K} + 1)
     {
         rows${K}[i${K} % $ln] = row${K}(1 + i${K} % $w, i${K});
@@ -722,7 +843,7 @@ def f3_strarr(c):
     lits = ", ".join('"%s"' % r.choice(["a", "bb", "ccc", "dd", "e", "xyz", "q1", ""]) for _ in range(ln))
     b.setup.append("var ss%d = [ %s ] : string" % (K, lits))
     b.setup.append("var i%d = 0" % K)
-    n = c.n(5, 30)
+    n = c.n(5, 30, 15)
     cap = r.randint(6, 16)
     b.use.append(T("""for (i${K} = 0; i${K} < $n; i${K} = i${K} + 1)
     {
@@ -763,12 +884,23 @@ def f3_comp(c):
     for (e in a) { s = (s + e) % 10007 };
     s * 2 + D
 }""", K=K))
+    c.need("idi")
+    c.funcs.append(T("""func over${K}(n : int, k : int) -> int
+{
+    var s = 0;
+    for (e in tri${K}(n, k))
+    {
+        s = (s * 3 + idi(e.x) + mkp(e.y, 1).x) % 10007
+    };
+    s
+}""", K=K))
+    b.late.append("acc = mix(acc, over%d(%d, %d))" % (K, r.randint(1, 3), r.randint(1, 9)))
     b.setup.append("let tv%d = tri%d(%d, %d)" % (K, K, r.randint(1, 3), r.randint(1, 9)))
     b.setup.append("var i%d = 0" % K)
-    n = c.n(2, 8)
+    n = c.n(2, 8, 120)
     b.use.append(T("""for (i${K} = 0; i${K} < $n; i${K} = i${K} + 1)
     {
-        acc = mix(acc, psum${K}(tri${K}(i${K} % 3 + 1, i${K})) + isum${K}(sel${K}(tv${K}, i${K} % 2)))
+        acc = mix(acc, psum${K}(tri${K}(i${K} % 3 + 1, i${K})) + isum${K}(sel${K}(tv${K}, i${K} % 2)) + over${K}(i${K} % 2 + 1, 3))
     }""", K=K, n=n))
     b.use.append('prints("v%d " + psum%d(tv%d) + "\\n")' % (K, K, K))
     b.late.append("acc = mix(acc, psum%d(tv%d))" % (K, K))
@@ -789,7 +921,7 @@ def f3_funarr(c):
     items = ", ".join("mkf%d(%d)" % (K, r.randint(1, 20)) for _ in range(ln))
     b.setup.append("var fs%d = [ %s ] : (int) -> int" % (K, items))
     b.setup.append("var i%d = 0" % K)
-    n = c.n(5, 30)
+    n = c.n(5, 30, 20)
     b.use.append(T("""for (i${K} = 0; i${K} < $n; i${K} = i${K} + 1)
     {
         fs${K}[i${K} % $ln] = mkf${K}(fs${K}[(i${K} + 1) % $ln](i${K}) % 30);
@@ -830,7 +962,7 @@ def f4_build(c):
     b.setup.append('var st%d = ""' % K)
     b.setup.append('st%d = sb%d(%d, "%s")' % (K, K, r.randint(3, 12), r.choice(["", "x", "ab", "seed"])))
     b.setup.append("var i%d = 0" % K)
-    n = c.n(4, 20)
+    n = c.n(4, 20, 160)
     b.use.append(T("""for (i${K} = 0; i${K} < $n; i${K} = i${K} + 1)
     {
         st${K} = trunc(st${K} + sb${K}(i${K} % 5 + 1, "$p") + i${K}, $cap);
@@ -957,7 +1089,7 @@ def f5_exprs(c):
         b.use.append("acc = mix(acc, %s %% 1009)" % g.int_(r.randint(2, 4)))
     b.use.append('prints("e%d " + %s + "\\n")' % (K, g.s_(r.randint(1, 3))))
     gl = ExprGen(c, K, ["i%d" % K, "acc % 7", "%d" % r.randint(1, 9)])
-    n = c.n(3, 14)
+    n = c.n(3, 14, 40)
     b.use.append("var i%d = 0" % K)
     b.use.append(T("""for (i${K} = 0; i${K} < $n; i${K} = i${K} + 1)
     {
@@ -985,7 +1117,7 @@ def f5_funcs(c):
     b.setup.append("let kp%d = mk%d(%d)" % (K, K, r.randint(1, 99)))
     b.setup.append('let ks%d = "ks" + %d' % (K, r.randint(1, 99)))
     b.setup.append("var i%d = 0" % K)
-    n = c.n(3, 14)
+    n = c.n(3, 14, 38)
     b.use.append(T("""for (i${K} = 0; i${K} < $n; i${K} = i${K} + 1)
     {
         acc = mix(acc, calc${K}(i${K}, acc % 17, kp${K}, ks${K} + i${K}))
@@ -1067,7 +1199,7 @@ $handlers""", K=K, a=r.randint(1, 9), b=r.randint(1, 9), handlers="\n".join(hand
     };
     t + length(ks) + keep.y
 }""", K=K, a=r.randint(10, 60), b=r.randint(1, 9), mod=mod))
-    n = c.n(4, 16)
+    n = c.n(4, 16, 30)
     b.use.append("acc = mix(acc, run%d(%d))" % (K, n))
     b.use.append("print(guard%d(%d, 0, mkp(%d, %d), \"k\"))" % (K, r.randrange(3), r.randint(1, 9), r.randint(1, 9)))
     b.late.append("acc = mix(acc, guard%d(%d, %d, mkp(acc %% 9, 2), \"late\"))"
@@ -1114,7 +1246,7 @@ catch (index_out_of_bounds)
 }""", K=K, body=body))
     b.setup.append("let kh%d = mkp(%d, %d)" % (K, r.randint(100, 200), r.randint(300, 400)))
     b.setup.append("var i%d = 0" % K)
-    n = c.n(4, 14)
+    n = c.n(4, 14, 18)
     b.use.append(T("""for (i${K} = 0; i${K} < $n; i${K} = i${K} + 1)
     {
         acc = mix(acc, half${K}(i${K} % $m, kh${K}) + kh${K}.x)
@@ -1157,7 +1289,7 @@ catch (division_by_zero)
 }""", K=K))
     b.setup.append("let kd%d = mkp(%d, %d)" % (K, r.randint(1, 99), r.randint(1, 99)))
     b.setup.append("var i%d = 0" % K)
-    n = c.n(3, 10)
+    n = c.n(3, 10, 32)
     b.use.append(T("""for (i${K} = 0; i${K} < $n; i${K} = i${K} + 1)
     {
         acc = mix(acc, safe${K}(i${K} % $dep + 1, i${K} % $m, kd${K}) + kd${K}.y)
@@ -1182,14 +1314,14 @@ def f7_tail(c):
 {
     i == 0 ? acc : tr${K}(i - 1, P(acc.y + 0, (acc.x + i * $m) % 1000))
 }""", K=K, m=r.randint(1, 9)))
-        exprs.append("tr%d(%d, mkp(%d, %d)).x" % (K, c.n(20, 120), r.randint(0, 9), r.randint(0, 9)))
+        exprs.append("tr%d(%d, mkp(%d, %d)).x" % (K, c.n(20, 120, 4), r.randint(0, 9), r.randint(0, 9)))
     if "str" in kinds:
         c.funcs.append(T("""func ts${K}(n : int, acc : string) -> string
 {
     if (n == 0) { acc } else { ts${K}(n - 1, trunc(acc + n % 10, $cap)) }
 }""", K=K, cap=r.randint(6, 20)))
-        exprs.append('length(ts%d(%d, "%s"))' % (K, c.n(20, 100), r.choice(["", "t"])))
-        b.use.append('prints("T%d " + ts%d(%d, "") + "\\n")' % (K, K, c.n(10, 40)))
+        exprs.append('length(ts%d(%d, "%s"))' % (K, c.n(20, 100, 4), r.choice(["", "t"])))
+        b.use.append('prints("T%d " + ts%d(%d, "") + "\\n")' % (K, K, c.n(10, 40, 4)))
     if "clo" in kinds:
         c.funcs.append(T("""func mka${K}(a : int) -> (int) -> int
 {
@@ -1199,7 +1331,7 @@ def f7_tail(c):
 {
     n == 0 ? f : tf${K}(n - 1, mka${K}(f(n) % 100))
 }""", K=K))
-        exprs.append("tf%d(%d, mka%d(%d))(%d)" % (K, c.n(10, 60), K, r.randint(1, 9), r.randint(1, 9)))
+        exprs.append("tf%d(%d, mka%d(%d))(%d)" % (K, c.n(10, 60, 5), K, r.randint(1, 9), r.randint(1, 9)))
     if "nest" in kinds:
         c.funcs.append(T("""func wr${K}(n : int, k : int) -> int
 {
@@ -1210,7 +1342,7 @@ def f7_tail(c):
     };
     go(n, mkp(0, base.y)).x
 }""", K=K))
-        exprs.append("wr%d(%d, %d)" % (K, c.n(20, 100), r.randint(1, 9)))
+        exprs.append("wr%d(%d, %d)" % (K, c.n(20, 100, 4), r.randint(1, 9)))
     if "list" in kinds:
         c.decls.append("record L%d { v : int; next : L%d; }" % (K, K))
         c.funcs.append(T("""func tl${K}(n : int, acc : L${K}) -> L${K}
@@ -1248,7 +1380,7 @@ def f7_deep(c):
     if (n == 0) { p.y } else { 1 + ev${K}(n - 1, mkp(p.y + n, p.x)) }
 }""", K=K))
     b.setup.append("var i%d = 0" % K)
-    n = c.n(2, 8)
+    n = c.n(2, 8, 45)
     b.use.append(T("""for (i${K} = 0; i${K} < $n; i${K} = i${K} + 1)
     {
         acc = mix(acc, deep${K}(i${K} % $d + 2, "") + ev${K}(i${K} % $d2 + 1, mkp(i${K}, 1)))
@@ -1284,9 +1416,9 @@ def f8_ring(c):
     for (i = 0; i < $ln; i = i + 1) { s = (s * 7 + ring[i].x + ring[i].y) % 10007 };
     s
 }""", K=K, ln=ln, b=r.randint(1, 9)))
-    b.use.append("acc = mix(acc, spin%d(%d))" % (K, c.n(80, 350)))
+    b.use.append("acc = mix(acc, spin%d(%d))" % (K, c.n(80, 350, 5)))
     if r.random() < 0.4:
-        b.late.append("acc = mix(acc, spin%d(%d))" % (K, c.n(20, 80)))
+        b.late.append("acc = mix(acc, spin%d(%d))" % (K, c.n(20, 80, 5)))
     return b
 
 
@@ -1336,9 +1468,9 @@ def f8_mixed(c):
     };
     ($fin) % 10007
 }""", K=K, decl="\n    ".join(decl), body=";\n        ".join(body), fin=" + ".join(fin)))
-    b.use.append("acc = mix(acc, grind%d(%d) + churn(%d))" % (K, c.n(60, 250), c.n(10, 60)))
+    b.use.append("acc = mix(acc, grind%d(%d) + churn(%d))" % (K, c.n(60, 250, 20), c.n(10, 60, 7)))
     if r.random() < 0.4:
-        b.late.append("acc = mix(acc, grind%d(%d))" % (K, c.n(10, 50)))
+        b.late.append("acc = mix(acc, grind%d(%d))" % (K, c.n(10, 50, 20)))
     return b
 
 
@@ -1348,7 +1480,7 @@ def f8_mixed(c):
 
 FAMILIES = {
     1: [f1_adders, f1_counters, f1_state, f1_chain],
-    2: [f2_list, f2_reclist, f2_ring, f2_tree, f2_nested],
+    2: [f2_list, f2_reclist, f2_ring, f2_tree, f2_nested, f2_global, f2_enum],
     3: [f3_recarr, f3_rows, f3_strarr, f3_comp, f3_funarr],
     4: [f4_build, f4_rec, f3_strarr],
     5: [f5_exprs, f5_funcs],
@@ -1402,7 +1534,9 @@ def assemble(rng, c, blocks, wrap, unhandled):
     if unhandled:
         stm.append(rng.choice(["acc = acc + idi(acc) / idi(0)",
                                "acc = acc + [ 1, 2 ] : int[idi(acc) + 2]"]))
-    text = "\n".join(c.decls) + "\n\n" + "\n".join(c.funcs) + "\n"
+    if c.count_calls and "idi" in c.have:
+        stm.append('prints("calls " + gcalls + "\\n")')
+    text = "\n".join(c.decls) + "\n\n" + "\n".join(c.globals) + "\n\n" + "\n".join(c.funcs) + "\n"
     if wrap:
         a, bb = rng.randint(1, 99), rng.randint(1, 99)
         stm.append("acc + kp0.x")
